@@ -18,11 +18,11 @@ type node = { k : char; root : bool; mutable f : int array; mutable items : int 
 
 let kind_of = function
   | 'S' | 's' -> KStruct | 'R' | 'r' -> KRef | 'B' -> KBox | 'A' -> KArray | 'L' -> KList
-  | 'T' -> KTable | 'E' -> KTree | 'U' | 'u' -> KTuple | _ -> KLeaf
+  | 'T' | 'Y' -> KTable | 'E' | 'Z' -> KTree | 'U' | 'u' -> KTuple | _ -> KLeaf
 let is_reg k = k >= 'A' && k <= 'Z'
 let ptrs nd = match nd.k with
   | 'S' | 's' | 'R' | 'r' | 'B' -> Array.to_list nd.f
-  | 'T' | 'E' -> List.map snd nd.kv
+  | 'T' | 'E' | 'Y' | 'Z' -> List.map snd nd.kv
   | _ -> nd.items
 let contents nd = gm_contents (kind_of nd.k) (List.map (fun i -> if i = 0 then N0 else addr i) (ptrs nd))
 
@@ -144,7 +144,7 @@ let run mode line =
             | [id; key; t] ->
               let nd = Hashtbl.find nodes id in
               (match nd.k with
-               | 'T' | 'E' -> nd.kv <- (key, t) :: List.remove_assoc key nd.kv
+               | 'T' | 'E' | 'Y' | 'Z' -> nd.kv <- (key, t) :: List.remove_assoc key nd.kv
                | _ -> nd.items <- nd.items @ [t]);
               store id
             | _ -> failwith "I")
@@ -152,7 +152,7 @@ let run mode line =
             | [id; key] ->
               let nd = Hashtbl.find nodes id in
               (match nd.k with
-               | 'T' | 'E' -> nd.kv <- List.remove_assoc key nd.kv
+               | 'T' | 'E' | 'Y' | 'Z' -> nd.kv <- List.remove_assoc key nd.kv
                | _ -> nd.items <- remove_nth key nd.items);
               store id
             | _ -> failwith "D")
@@ -171,7 +171,7 @@ let run mode line =
               sorder := List.filter (fun a -> a <> addr id) !sorder
             end else do_step (EDel (addr id))
           end
-        | 'G' | 'H' ->
+        | 'G' | 'H' | 'E' ->
           if spec then obs (String.make 1 tok.[0]) (" r=" ^ ids_s (reach ()) ^ must_keep ())
           else begin
             flush_roots ();
@@ -194,6 +194,7 @@ let run mode line =
             done;
             obs "M" (" a=" ^ ids_s (alive ()))
           end
+        | '@' -> ()      (* the implementation runs the script in a second thread; same model *)
         | _ -> failwith ("bad token " ^ tok)
       end) (String.split_on_char ' ' line)
   with Stop s -> (if !nobs > 0 then Buffer.add_string buf " | "; Buffer.add_string buf s; incr nobs));
